@@ -17,4 +17,22 @@ PROPS = {
         assumptions=['partial correctness: from_usize panics on id overflow; Vec capacity overflow aborts',
                      'concurrent::UnionFind interleavings are NOT checked (no thread support in Kani/Verus for this code)'],
     ),
+    'C10': dict(
+        units=['sched'],
+        kani_quick=[],
+        kani_thorough=[],
+        design_ref='DESIGN.md section 4 (U-SCHED) and section 5 C10',
+        level_text='Unbounded proof (Verus) that the real EGraph::run_schedule and EGraph::run_rules (src/lib.rs) and '
+                   'RunReport::{default,union} (egglog-reports) implement the schedule semantics written from the property '
+                   'statement (run_ok): Run = the :until gate then exactly one iteration; Repeat = at most n executions, stopping '
+                   'after the first that reports can_stop and never earlier; Saturate = executions until one reports no update '
+                   '(partial correctness); Sequence = every sub-schedule left to right; reports combine with updated=OR, '
+                   'can_stop=AND, iterations concatenated. For every schedule tree and every behaviour of the abstract step.',
+        level_note='Trusted: step_rules and check_facts as functions of an abstract state (A-step: one backend iteration + '
+                   'RunReport::singleton flags; check_facts leaves the state unchanged), the timing-map helpers union_times/union_counts, '
+                   'Vec::extend specification, IndexMap::contains_key; the parser mapping (run n) to Repeat(n, Run); one assume on the '
+                   'log-only Saturate counter. Err outcomes are unconstrained (only ruleset preservation). Termination of saturate not claimed.',
+        assumptions=['step_rules/check_facts are assumed contracts over an abstract state (src/lib.rs:1118,1571 not verified)',
+                     'errors: on Err the final state is not constrained by the contract'],
+    ),
 }
